@@ -129,3 +129,67 @@ func c06TailBurst(addr string, cid int, seed uint64, rounds int) (viol [][2]stri
 	}
 	return
 }
+
+// c06Reissue: the re-request (0x8003) is a frame the server writes like any other: it takes the next platform serial and the
+// frames after it continue the numbering. One connection per suite: packet 1 of 2, 5.3 s of silence, a heartbeat (=> 0x8003 and
+// 0x8001), the missing packet (=> 0x8800), a heartbeat (=> 0x8001); serials must be 0,1,2,3.
+func c06Reissue(addr string, cid int) (viol [][2]string, incon bool, frames int) {
+	bad := func(sig, detail string) { viol = append(viol, [2]string{sig, detail}) }
+	t, err := svc.Dial(addr, cid%2 == 1, fmt.Sprintf("%d", 6700000+cid))
+	if err != nil {
+		return nil, true, 0
+	}
+	defer t.Close()
+	body := make([]byte, 60)
+	for i := range body {
+		body[i] = byte(0x30 + i%40)
+	}
+	t.Write(t.SubFrame(0x0801, 10, 2, 1, body[:30]))
+	time.Sleep(5300 * time.Millisecond)
+	t.Write(t.Frame(0x0002, 20, nil))
+	var ids []uint16
+	next := func() bool {
+		rx, ok, to := t.Next(20 * time.Second)
+		if to {
+			incon = true
+			return false
+		}
+		if !ok || rx.F == nil {
+			bad("reply|connection closed by the server during a valid conversation", fmt.Sprintf("re-request scenario conn %d after %d frames", cid, frames))
+			return false
+		}
+		if int(rx.F.Serial) != frames {
+			bad("serial|platform serial numbers not consecutive from 0 (mod 65536)", fmt.Sprintf("conn %d: frame #%d written by the server (id %04x, after a re-request) carries serial %d", cid, frames, rx.F.ID, rx.F.Serial))
+			return false
+		}
+		frames++
+		ids = append(ids, rx.F.ID)
+		return true
+	}
+	if !next() || !next() {
+		return
+	}
+	t.Write(t.SubFrame(0x0801, 11, 2, 2, body[30:]))
+	if !next() {
+		return
+	}
+	t.Write(t.Frame(0x0002, 21, nil))
+	if !next() {
+		return
+	}
+	n8003, n8800, n8001 := 0, 0, 0
+	for _, id := range ids {
+		switch id {
+		case 0x8003:
+			n8003++
+		case 0x8800:
+			n8800++
+		case 0x8001:
+			n8001++
+		}
+	}
+	if n8003 != 1 || n8800 != 1 || n8001 != 2 {
+		bad("reply|wrong reply type|re-request scenario", fmt.Sprintf("conn %d: frames %04x", cid, ids))
+	}
+	return
+}
